@@ -377,7 +377,7 @@ META = dict(
 )
 
 MANIFEST = dict(
-    text="For C07: the real pdb.read_pdb + main.drop_water + Biomolecule.__init__ on every sequence (up to the bound) of 27 record kinds (incl. a damaged coordinate line) placed between a fixed prefix and suffix, with/without a second model and --drop-water, against an independent column-slicing reader (every ATOM/HETATM of model 1 present once, first alternate location, nothing from later models, waters removed iff requested, residues not merged); and the real ATOM/HETATM line parsers + read loop on a column-formatted line whose fields are all symbolic (layout strings) against the PDB column spec; the real drop_water on a record whose residue name is 1-3 symbolic characters (dropped iff the name is HOH or WAT). Round 4: MODEL records labelled 0/1, 1/1, 5/6 (the serial is a label), a blank-chain water record among the kinds.",
+    text="For C07: the real pdb.read_pdb + main.drop_water + Biomolecule.__init__ on every sequence (up to the bound) of 27 record kinds (incl. a damaged coordinate line) placed between a fixed prefix and suffix, with/without a second model and --drop-water, against an independent column-slicing reader (every ATOM/HETATM of model 1 present once, first alternate location, nothing from later models, waters removed iff requested, residues not merged); and the real ATOM/HETATM line parsers + read loop on a column-formatted line whose fields are all symbolic (layout strings) against the PDB column spec; the real drop_water on a record whose residue name is 1-3 symbolic characters (dropped iff the name is HOH or WAT). Round 4: MODEL records labelled 0/1, 1/1, 5/6 (the serial is a label), a blank-chain water record among the kinds. Round 5: table - every alternate heavy-atom spelling accepted by AA.xml / NA.xml belongs to one atom of its residue (independent XML parse against the real Definition).",
     note="Trusted: z3, symx layout strings. Record-kind sequences are bounded (2-4 symbolic lines); the file text for a given sequence is concrete. MODEL/ENDMDL bracketing and adjacent alternate-location pairs are assumed (documented PDB format). Exceptions on malformed sequences are tolerated as loud failures.",
     technique="symbolic execution of real code over record-kind selectors and layout strings (symx) + SMT verdict per path",
     design="DESIGN.md section 3 C07",
